@@ -566,14 +566,39 @@ struct Runner {
     }
 };
 
-static verif::Result exec(const Script& sc, const verif::Config& cfg)
+static verif::Result exec(const Script& sc, const verif::Config& cfg0)
 {
+    verif::Config cfg = cfg0;
+    if (cfg.strategy == 1) {
+        // sticky random scheduling: vary the burst length with the seed.  Long bursts reach the states in which one
+        // thread stands still in the middle of an operation while other threads complete whole operations (register,
+        // traverse, release) - the windows rcu's grace-period logic is about.
+        static const int pct[] = {70, 90, 97};
+        cfg.stick_pct = pct[(cfg.seed / 3) % 3];
+    }
+    auto parts = split(sc.config, '-');
+    if (parts.size() > 2) {
+        // directed schedule: `<tid>x<n>.<tid>x<n>...` = the first scheduling decisions, as run lengths (the rest of the
+        // run is scheduled at random); no spurious CAS failures, so that the step counts mean the same on every run
+        cfg.casfail_budget = 0;
+        if (cfg.strategy != 3) {
+            cfg.strategy = 3;
+            cfg.replay.clear();
+            for (auto& seg : split(parts[2], '.')) {
+                auto tn = split(seg, 'x');
+                if (tn.size() == 2) {
+                    for (int k = 0; k < atoi(tn[1].c_str()); ++k) {
+                        cfg.replay.push_back(atoi(tn[0].c_str()) * 4);
+                    }
+                }
+            }
+        }
+    }
     verif::begin(cfg);
     verif::g_casfail_left = cfg.casfail_budget;
     arena_reset();
     g_live_elems.clear();
     g_throw_in_node = false;
-    auto parts = split(sc.config, '-');
     std::string elem = parts[0];
     bool alloc_ctor = parts.size() > 1 && parts[1] == "a";
     verif::emit("cfg rcu " + elem + " " + (alloc_ctor ? "a" : "d"));
@@ -716,6 +741,14 @@ int main(int argc, char** argv)
         parse("obj-a;lw,pf=1,rel;lw,pb=2,rel;lw,ef=3,rel;lr,all,all,rel"),
         // handle never used / never released explicitly
         parse("int-a;lr;lw;lw,pf=1"),
+        // directed schedules (run lengths of the first scheduling decisions, see exec): the writer is stopped inside
+        // erase - before the unlink, between unlink and the push of the zombie record, after it - while two readers
+        // register and start a traversal; then the writer finishes and releases, the older reader releases (and
+        // reclaims), and the younger reader goes on using its iterator
+        parse("obj-d-1x18.2x7.3x7.1x11.2x6;lw,pf=1,beg,erc,rel;lr,beg,rel;lr,beg,der,nxt,rel"),
+        parse("obj-d-1x21.2x7.3x7.1x8.2x6;lw,pf=1,beg,erc,rel;lr,beg,rel;lr,beg,der,nxt,rel"),
+        parse("int-a-1x24.2x7.3x7.1x7.2x6;lw,pf=1,beg,erc,rel;lr,beg,rel;lr,beg,der,nxt,rel"),
+        parse("obj-a-1x30.2x7.3x8.1x8.2x6;lw,pb=1,pb=2,beg,nxt,erc,rel;lr,beg,rel;lr,beg,nxt,der,nxt,der,rel"),
     };
     return client_main(argc, argv, directed, gen, exec);
 }
